@@ -553,3 +553,54 @@ def r14_stopiteration_drivers(ctx, rule='R14m'):
                       'taken for the end of the stream, the run returns normally with rows missing'
                       % (ctx.res.external_name(c).split('.')[-1], why))
     return n
+
+
+# ---------------------------------------------------------------------- R14x: __exit__ methods do not swallow
+_R14X_CONTROL = '''
+class Scope:
+    def __exit__(self, exc_type, exc_value, traceback):
+        return self.discard()
+
+class Plain:
+    def __exit__(self, *exc):
+        self.close()
+        return False
+'''
+
+
+def _exit_suppresses(fnode):
+    """Return expressions of an __exit__ method that may be true: anything but no value / None / False (a true result makes the
+    `with` statement swallow the exception in flight)."""
+    bad = []
+    for n in ast.walk(fnode):
+        if isinstance(n, (ast.FunctionDef, ast.AsyncFunctionDef, ast.Lambda)) and n is not fnode:
+            continue
+        if isinstance(n, ast.Return) and n.value is not None and \
+                not (isinstance(n.value, ast.Constant) and n.value.value in (None, False)):
+            bad.append(n)
+    return bad
+
+
+def r14_exit_methods(ctx, rule='R14x'):
+    """A context manager of the library that answers true from __exit__ swallows whatever was raised inside its `with` block: a
+    failing step then looks like a successful run.  (contextlib.suppress and handlers inside @contextmanager generators are handlers
+    and belong to R14.)"""
+    run, repo = ctx.run, ctx.repo
+    run.rule(rule, 'EXIT-NO-SUPPRESS: no __exit__ method defined in the library returns a value that may be true')
+    ctl = ast.parse(_R14X_CONTROL)
+    got = [c.name for c in ctl.body if isinstance(c, ast.ClassDef) for m in c.body if isinstance(m, ast.FunctionDef) and _exit_suppresses(m)]
+    if got != ['Scope']:
+        raise AnalysisError('R14x self-check failed: %s' % got)
+    n = 0
+    for f in sorted(repo.functions.values(), key=lambda f: f.qualname):
+        if isinstance(f.node, ast.Lambda) or f.node.name not in ('__exit__', '__aexit__') or f.cls is None:
+            continue
+        n += 1
+        bad = _exit_suppresses(f.node)
+        run.check(not bad, rule, where(repo, bad[0]) if bad else f.where, f.qualname, '__exit__ returns None / False',
+                  '%s.__exit__ returns %s: when that is true the `with` statement swallows the exception raised inside the block - a '
+                  'failure of a step (or of the dumper itself) disappears and the run is reported as successful'
+                  % (f.cls.name, u(bad[0].value) if bad else ''))
+    if n == 0:
+        run.ok(rule, 'dataflows/', 'dataflows', 'no __exit__ method is defined in the library (control example: detected)')
+    return n
